@@ -151,6 +151,7 @@ int32 parseClientHello(ssl_t *ssl, unsigned char **cp, unsigned char *end)
     int32 rc, i;
     unsigned char *c;
     int32 versionCheckResult;
+    psProtocolVersion_t helloVersion;
 
 #  ifdef USE_ECC_CIPHER_SUITE
     const psEccCurve_t *curve;
@@ -193,6 +194,8 @@ int32 parseClientHello(ssl_t *ssl, unsigned char **cp, unsigned char *end)
       no supported_versions extension is found.
     */
     versionCheckResult = checkClientHelloVersion(ssl);
+    /* The version the extensions (a session ticket) are checked against */
+    helloVersion = GET_NGTD_VER(ssl);
 
     if (ssl->rec.majVer > SSL2_MAJ_VER)
     {
@@ -480,6 +483,22 @@ int32 parseClientHello(ssl_t *ssl, unsigned char **cp, unsigned char *end)
             SET_ACTV_VER(ssl, psVerGetHighestTls(ssl->supportedVersions));
             return rc;
         }
+# ifdef USE_STATELESS_SESSION_TICKETS
+        /* A session ticket was unlocked while the extensions were parsed,
+           when only the version from ClientHello.client_version was known:
+           its version and cipher suite were matched against that.  If
+           supported_versions has selected another version, the ticket does
+           not belong to this handshake: continue with a full handshake. */
+        if ((ssl->flags & SSL_FLAGS_RESUMED) && ssl->sid &&
+            ssl->sid->sessionTicketState == SESS_TICKET_STATE_USING_TICKET &&
+            VER_GET_RAW(GET_NGTD_VER(ssl)) != VER_GET_RAW(helloVersion))
+        {
+            ssl->flags &= ~SSL_FLAGS_RESUMED;
+            ssl->sid->sessionTicketState = SESS_TICKET_STATE_RECVD_EXT;
+            Memset(ssl->sessionId, 0, SSL_MAX_SESSION_ID_SIZE);
+            ssl->sessionIdLen = 0;
+        }
+# endif
     }
     else
 #endif /* USE_TLS_1_3 */
